@@ -2,7 +2,7 @@
    functions map related arguments to related results; methods with callbacks do so whenever the
    two ways of applying a closure (reference / generator) map related closures and arguments to
    related results (one logical-relation lemma per combinator). *)
-From P2 Require Import Base.Prelude Base.PreludeProofs Sem.Num Sem.Syntax Sem.Ops Sem.Lib Sem.Ref Sem.Gen Sem.Sim Sem.RelProofs Sem.OpsProofs.
+From P2 Require Import Base.Prelude Base.PreludeProofs Sem.Num Sem.Syntax Sem.Ops Sem.Lib Sem.Ref Sem.Gen Sem.Sim Sem.RelProofs Sem.OpsProofs Sem.LibDataProofs.
 Require Import Lia.
 Local Open Scope Z_scope.
 
@@ -150,6 +150,85 @@ Proof.
     inv Hy; try constructor. destruct b; [constructor; auto|apply IH].
 Qed.
 
+Lemma mapargs_app_rel f f' a a' :
+  vrel f f' -> Forall2 (Forall2 vrel) a a' ->
+  rrel (Forall2 vrel) (mapargs_app app1 f a) (mapargs_app app2 f' a').
+Proof.
+  intros Hf Ha. induction Ha as [|x x' a a' Hx Ha IH]; cbn [mapargs_app].
+  - repeat constructor.
+  - eapply rrel_bind; [apply Happ; auto|]. intros y y' Hy.
+    eapply rrel_bind; [exact IH|]. intros ys ys' Hys. repeat constructor; auto.
+Qed.
+
+Lemma compact_app_rel f f' l l' :
+  vrel f f' -> Forall2 vrel l l' -> forall last last', vrel last last' ->
+  rrel (Forall2 vrel) (compact_app app1 f last l) (compact_app app2 f' last' l').
+Proof.
+  intros Hf Hl. induction Hl as [|x x' l l' Hx Hl IH]; intros last last' Hlast; cbn [compact_app].
+  - repeat constructor.
+  - eapply rrel_bind; [apply Happ; auto|]. intros y y' Hy.
+    inv Hy; try constructor. destruct b; [apply IH; auto|].
+    eapply rrel_bind; [apply IH; auto|]. intros ys ys' Hys. repeat constructor; auto.
+Qed.
+
+Lemma scan_app_rel three f f' l l' :
+  vrel f f' -> Forall2 vrel l l' -> forall li li' la la', vrel li li' -> vrel la la' ->
+  rrel (Forall2 vrel) (scan_app app1 three f li la l) (scan_app app2 three f' li' la' l').
+Proof.
+  intros Hf Hl. induction Hl as [|x x' l l' Hx Hl IH]; intros li li' la la' Hli Hla; cbn [scan_app].
+  - repeat constructor.
+  - eapply rrel_bind; [apply Happ; auto; destruct three; repeat constructor; auto|]. intros o o' Ho.
+    eapply rrel_bind; [apply IH; auto|]. intros ys ys' Hys. repeat constructor; auto.
+Qed.
+
+Lemma iir_app_rel three ini ini' f f' l l' :
+  vrel ini ini' -> vrel f f' -> Forall2 vrel l l' ->
+  rrel (Forall2 vrel) (iir_app app1 three ini f l) (iir_app app2 three ini' f' l').
+Proof.
+  intros Hi Hf Hl. destruct Hl as [|x x' l l' Hx Hl]; cbn [iir_app].
+  - repeat constructor.
+  - eapply rrel_bind; [apply Happ; auto|]. intros o o' Ho.
+    eapply rrel_bind; [apply scan_app_rel; auto|]. intros ys ys' Hys. repeat constructor; auto.
+Qed.
+
+Lemma merge_app_rel f f' l1 l1' :
+  vrel f f' -> Forall2 vrel l1 l1' -> forall l2 l2', Forall2 vrel l2 l2' ->
+  rrel (Forall2 vrel) (merge_app app1 f l1 l2) (merge_app app2 f' l1' l2').
+Proof.
+  intros Hf H1. induction H1 as [|a a' l1 l1' Ha H1 IH1]; intros l2 l2' H2.
+  - destruct H2; cbn [merge_app]; repeat constructor; auto.
+  - induction H2 as [|b b' l2 l2' Hb H2 IH2]; cbn [merge_app].
+    + repeat constructor; auto.
+    + eapply rrel_bind; [apply Happ; auto|]. intros y y' Hy.
+      inv Hy; try constructor. destruct b0.
+      * eapply rrel_bind; [apply IH1; auto|]. intros ys ys' Hys. repeat constructor; auto.
+      * eapply rrel_bind; [exact IH2|]. intros ys ys' Hys. repeat constructor; auto.
+Qed.
+
+Lemma minmax_map_rel mn mn' mx mx' mni mni' mxi mxi' b :
+  vrel mn mn' -> vrel mx mx' -> vrel mni mni' -> vrel mxi mxi' ->
+  vrel (minmax_map mn mx mni mxi b) (minmax_map mn' mx' mni' mxi' b).
+Proof.
+  intros. unfold minmax_map. apply vr_map.
+  repeat (apply Forall2_cons; [split; cbn; auto; apply vr_bool|]). apply Forall2_nil.
+Qed.
+
+Lemma minmax_app_rel f f' l l' :
+  vrel f f' -> Forall2 vrel l l' ->
+  forall mn mn' mx mx' mni mni' mxi mxi',
+  vrel mn mn' -> vrel mx mx' -> vrel mni mni' -> vrel mxi mxi' ->
+  orel (minmax_app app1 f mn mx mni mxi l) (minmax_app app2 f' mn' mx' mni' mxi' l').
+Proof.
+  intros Hf Hl. induction Hl as [|x x' l l' Hx Hl IH]; intros mn mn' mx mx' mni mni' mxi mxi' H1 H2 H3 H4;
+    cbn [minmax_app].
+  - constructor. apply minmax_map_rel; auto.
+  - eapply rrel_bind; [apply Happ; auto|]. intros k k' Hk.
+    rewrite (vless_rel _ _ _ _ Hk H1), (vless_rel _ _ _ _ H2 Hk).
+    destruct (vless k' mn') as [le| | | |]; cbn [bind]; try constructor.
+    destruct (vless mx' k') as [gr| | | |]; cbn [bind]; try constructor.
+    apply IH; [destruct le|destruct gr|destruct le|destruct gr]; auto.
+Qed.
+
 Ltac callback H Hl :=
   let Hv := fresh "Hv" in let Hr := fresh "Hr" in
   destruct H as [|? ? ? ? Hv Hr]; [constructor|];
@@ -201,6 +280,68 @@ Proof.
   destruct (str_eqb mname n_present).
   { callback H Hl. eapply rrel_bind; [apply index_where_rel; auto|].
     intros ? ? ->. repeat constructor. }
+  destruct (str_eqb mname n_single).
+  { destruct Hl as [|e e' l l' Hx Hl]; [constructor|]. destruct Hl; constructor; auto. }
+  destruct (str_eqb mname n_min). { destruct Hl; [constructor|]. apply pick_min_rel; auto. }
+  destruct (str_eqb mname n_max). { destruct Hl; [constructor|]. apply pick_max_rel; auto. }
+  destruct (str_eqb mname n_mean).
+  { rewrite (Forall2_length' _ _ _ Hl). destruct Hl; [constructor|].
+    eapply rrel_bind; [apply fold_calc_rel; auto|]. intros s s' Hs. apply calc_rel; auto. constructor. }
+  destruct (str_eqb mname n_minMax).
+  { callback H Hl. destruct Hl as [|e e' l l' Hx Hl].
+    - constructor. apply minmax_map_rel; constructor.
+    - eapply rrel_bind; [apply Happ; auto|]. intros k k' Hk. apply minmax_app_rel; auto. }
+  destruct (str_eqb mname n_number).
+  { callback H Hl. eapply rrel_bind; [apply mapargs_app_rel; auto; apply number_args_rel; auto; constructor|].
+    intros; repeat constructor; auto. }
+  destruct (str_eqb mname n_compact).
+  { callback H Hl. destruct Hl as [|e e' l l' Hx Hl]; [repeat constructor|].
+    eapply rrel_bind; [apply compact_app_rel; auto|]. intros; repeat constructor; auto. }
+  destruct (str_eqb mname n_combine).
+  { callback H Hl. eapply rrel_bind; [apply mapargs_app_rel; auto|intros; repeat constructor; auto].
+    destruct Hl; [constructor|]. apply pair_args_rel; auto. }
+  destruct (str_eqb mname n_combine3).
+  { callback H Hl. eapply rrel_bind; [apply mapargs_app_rel; auto|intros; repeat constructor; auto].
+    destruct Hl as [|e e' l l' Hx Hl]; [constructor|]. destruct Hl; [constructor|].
+    apply triple_args_rel; auto. }
+  destruct (str_eqb mname n_combineN).
+  { destruct H as [|v v' r r' Hv Hr]; [constructor|].
+    destruct Hr as [|w w' r r' Hw Hr2]; [inv Hv; constructor|].
+    destruct Hr2; inv Hv; try (cbn; constructor; fail).
+    destruct (z <? 1); [constructor|].
+    rewrite (is_func_rel _ _ _ Hw). destruct (is_func w' 1); [|constructor].
+    destruct (100000 <? z); [constructor|].
+    eapply rrel_bind; [apply mapargs_app_rel; auto|intros; repeat constructor; auto].
+    apply windows_rel; auto. intros; constructor; auto. }
+  destruct (str_eqb mname n_iir).
+  { destruct H as [|v v' r r' Hv Hr]; [constructor|].
+    destruct Hr as [|w w' r r' Hw Hr2]; [constructor|].
+    destruct Hr2; [|constructor].
+    rewrite (is_func_rel _ _ _ Hv). destruct (is_func v' 1); [|constructor].
+    rewrite (is_func_rel _ _ _ Hw). destruct (is_func w' 2); [|constructor].
+    eapply rrel_bind; [apply iir_app_rel; auto|intros; repeat constructor; auto]. }
+  destruct (str_eqb mname n_iirCombine).
+  { destruct H as [|v v' r r' Hv Hr]; [constructor|].
+    destruct Hr as [|w w' r r' Hw Hr2]; [constructor|].
+    destruct Hr2; [|constructor].
+    rewrite (is_func_rel _ _ _ Hv). destruct (is_func v' 1); [|constructor].
+    rewrite (is_func_rel _ _ _ Hw). destruct (is_func w' 3); [|constructor].
+    eapply rrel_bind; [apply iir_app_rel; auto|intros; repeat constructor; auto]. }
+  destruct (str_eqb mname n_cross).
+  { destruct H as [|v v' r r' Hv Hr]; [constructor|].
+    destruct Hr as [|w w' r r' Hw Hr2]; [constructor|].
+    destruct Hr2; [|constructor].
+    rewrite (is_func_rel _ _ _ Hw). destruct (is_func w' 2); [|constructor].
+    inv Hv; try constructor.
+    eapply rrel_bind; [apply mapargs_app_rel; auto|intros; repeat constructor; auto].
+    apply cross_args_rel; auto. }
+  destruct (str_eqb mname n_merge).
+  { destruct H as [|v v' r r' Hv Hr]; [constructor|].
+    destruct Hr as [|w w' r r' Hw Hr2]; [constructor|].
+    destruct Hr2; [|constructor].
+    rewrite (is_func_rel _ _ _ Hw). destruct (is_func w' 2); [|constructor].
+    inv Hv; try constructor.
+    eapply rrel_bind; [apply merge_app_rel; auto|intros; repeat constructor; auto]. }
   constructor.
 Qed.
 
